@@ -708,4 +708,32 @@ example : segsXOK toyCharSpec C01_timerExt C01_exLine = true ∧ WellSpelled toy
     (C01_exLine.flatMap SegX.spell).all (fun u => u.kind != .newline) = true := by decide
 example : (parseFrontmatter toyCharSpec (render (C01_exLine.flatMap SegX.spell))).isNone = true := by decide
 
+/-! ### well-spelledness of concatenated spellings -/
+
+/-- `WellSpelled` (the hypothesis of `C01_lex_render` / `C01_lex_spells`) is compositional: a
+    concatenation `a ++ b` is well spelled iff `b` is and `a` is well spelled when followed by the
+    first character of `b` (`wellSpelledNext`, decidable: the same token-by-token test with the
+    look-ahead taken from `b` at the end of `a`).  So the spelling of a step can be checked segment
+    by segment, each with the first character of the next segment; followed by nothing
+    (`none`) it is `WellSpelled` itself.
+    Partial (goal "printer output is well spelled"): the leaf tokens of the spellings (names,
+    units, notes, text runs) are arguments, so well-spelledness of a spelled component is a
+    condition on them and on the characters at the seams; no closed-form sufficient condition per
+    leaf family is proved here (the examples decide it on concrete spellings). -/
+theorem C01_well_spelled_append_partial (cs : CharSpec) (a b : List Tok) :
+    WellSpelled cs (a ++ b) ↔ (wellSpelledNext cs (render b).head? a = true ∧ WellSpelled cs b) := by
+  unfold WellSpelled
+  rw [rtin_wellSpelled_append, Bool.and_eq_true]
+
+/-- … and a list that is well spelled when followed by nothing is `WellSpelled` (the last segment
+    of a printed text). -/
+theorem C01_well_spelled_next_none (cs : CharSpec) (a : List Tok) :
+    wellSpelledNext cs none a = true ↔ WellSpelled cs a := by
+  unfold WellSpelled
+  rw [rtin_wellSpelledNext_none]
+
+/-- example: `@salt` is well spelled before `,` but not before `y` (the word would go on) -/
+example : wellSpelledNext toyCharSpec (some ',') (spellShortIngredient C01_exSalt) = true ∧
+    wellSpelledNext toyCharSpec (some 'y') (spellShortIngredient C01_exSalt) = false := by decide
+
 end Cook
